@@ -215,6 +215,39 @@ def catalogue_sweep(ctx, tier, rounds=1):
     return True
 
 
+def stimulus_sweep(ctx, rounds=1):
+    """simulation-only library blocks that write wires (Sequence, RandomValue, Constant, AutoReset ...) given values OUTSIDE the wire's range
+    (negative, wider than the wire) in every position: range oracle after construction, after simulator creation and after every edge."""
+    import random
+    py4hw = common.quiet_import()
+    for rd in range(rounds):
+        rng = random.Random(ctx.seed * 11 + 5 + rd)
+        for w in (1, 3, 4, 8):
+            for n in (1, 2, 4):
+                odd = lambda: rng.choice([-1, -3, -(1 << w), (1 << w), (1 << w) + 5, (1 << (w + 3)) - 1, rng.randrange(1 << w)])
+                vals = [odd() for _ in range(n)]
+                vals[rng.randrange(n)] = rng.choice([-3, (1 << w) + 1])          # at least one element out of range, in a random position
+                for once in (False, True):
+                    with quiet():
+                        hw = py4hw.HWSystem(); r = hw.wire('r', w); q = hw.wire('q', w); c = hw.wire('c', w)
+                        py4hw.Sequence(hw, 'seq', vals, r, once); py4hw.Reg(hw, 'reg', r, q)
+                        py4hw.Constant(hw, 'k', vals[0], c)
+                    where, bad = 'construction', out_of_range(hw)
+                    if not bad:
+                        with quiet(): sim = hw.getSimulator()
+                        where, bad = 'simulator creation', out_of_range(hw)
+                    k = 0
+                    while not bad and k < n + 2:
+                        with quiet(): sim.clk(1)
+                        k += 1; where, bad = 'edge %d' % k, out_of_range(hw)
+                    ctx.count(('stimulus-range', w, n, once), n=n + 3)
+                    if bad:
+                        ctx.violation({'what': 'a wire holds a value outside [0, 2**width)', 'block': 'Sequence(values, r, once) -> Reg, Constant(values[0])', 'width': w,
+                                       'values': vals, 'once': once, 'after': where, 'wire': bad[0][0], 'value': bad[0][2]})
+                        return False
+    return True
+
+
 def run(ctx):
     ctx.cov['rule'] = ('obligations: theorems of Properties/C06.v over the regenerated Wire.put/prepare; correspondence cases: '
                        '(random design x stimulus step) and (primitive x widths x extreme operand); a case is distinct by its block list + wire widths '
@@ -229,14 +262,14 @@ def run(ctx):
     if ok and not missing:
         ok = extremes_on_primitives(ctx)
     if ok:
-        ok = catalogue_sweep(ctx, ctx.tier)
+        ok = catalogue_sweep(ctx, ctx.tier) and stimulus_sweep(ctx)
     if ok and not tie_ok:
         # obligation or tie broken, and the search above found no wire out of range
         what = ('translator rejected %s: %s' % (missing, {k: ctx.gen['errors'].get(k) for k in missing}) if missing else
                 'a write to a wire value bypasses put/prepare: %s' % writers if writers else
                 'proof obligation no longer checks: %s in %s' % (r.get('lemma'), r.get('file')))
         if not ctx.quick or True:
-            ok2 = sweep(ctx, 60, 10, with_model=False) and catalogue_sweep(ctx, 'thorough', rounds=3)      # widen the search before giving up
+            ok2 = sweep(ctx, 60, 10, with_model=False) and catalogue_sweep(ctx, 'thorough', rounds=3) and stimulus_sweep(ctx, rounds=4)      # widen the search before giving up
             if not ok2: return
         ctx.violation({'what': what, 'theorem': r.get('lemma'), 'file': r.get('file'), 'coq_error': r.get('msg')}, found_input=False)
     ctx.assumptions += ['blocks write wires only through Wire.put / Wire.prepare (checked by the AST scan of py4hw/**.py on every run)',
